@@ -6,6 +6,8 @@
 (*   succ, pred   sets of indices                   | "Edfa" | "Multiband_amplifier"                           *)
 (*   len     fibre length (integer length unit, the same unit as S.maxLen; 0 for non fibres)                   *)
 (*   coef    loss coefficient (integer, NONE when frequency dependent)       variety   type_variety ("" unset) *)
+(*   coefTab loss coefficient table <<<<frequency, value>>, ...>> of a fibre whose loss is given per frequency  *)
+(*           (<<>> otherwise)                                                                                  *)
 (*   conIn, conOut, attIn    connector / padding attenuator, micro-dB, NONE = absent                           *)
 (*   loss    total loss of a passive element at the reference frequency, micro-dB (0 for others)               *)
 (*   sub     amplifier settings: sequence of [variety, gain, voa, dp] (one entry for an Edfa, one per band for  *)
@@ -97,10 +99,10 @@ SplitOk(f, G, S) ==
         k     == Cardinality(parts)
     IN \/ /\ parts = {} /\ same # {}
           /\ f.len <= S.maxLen
-          /\ \A i \in same : G[i].len = f.len /\ G[i].coef = f.coef /\ G[i].variety = f.variety
+          /\ \A i \in same : G[i].len = f.len /\ G[i].coef = f.coef /\ G[i].coefTab = f.coefTab /\ G[i].variety = f.variety
        \/ /\ same = {} /\ k >= 2
           /\ f.len >= S.maxLen
-          /\ \A i \in parts : /\ G[i].type = f.type /\ G[i].coef = f.coef /\ G[i].variety = f.variety
+          /\ \A i \in parts : /\ G[i].type = f.type /\ G[i].coef = f.coef /\ G[i].coefTab = f.coefTab /\ G[i].variety = f.variety
                               /\ G[i].len <= S.maxLen
                               /\ \A j \in parts : G[j].len = G[i].len
                               /\ AbsI(k * G[i].len - f.len) <= k
@@ -130,6 +132,10 @@ DefaultConnectorsApplied(In, G, S) ==
        /\ In[o].conIn = NONE  => G[i].conIn = S.conIn
        /\ In[o].conOut = NONE /\ Cardinality(G[i].succ) = 1 =>
              G[i].conOut = S.conOut + (IF G[Next1(G, i)].type = "Fused" THEN 0 ELSE S.eol)
+
+\* padding completes, never replaces, a padding attenuator set by the user (docs/json.rst, Span.padding)
+UserAttenuatorKept(In, G) ==
+    \A i \in Fibres(G) : \A o \in InputOf(In, G[i]) : In[o].attIn # NONE => G[i].attIn # NONE /\ G[i].attIn >= In[o].attIn - Tol
 
 (* Padding.  A span is a maximal run of fibres / fused splices.  Judged are the amplifier-to-amplifier spans    *)
 (* that contain a fibre and no Raman fibre: their total loss is at least the configured padding.  (A run that   *)
